@@ -29,7 +29,7 @@ def verdict(res, why, sd=None):
 
 out = []
 out.append('## 12. Which checks catch which changes (self-validation by independently seeded defects)\n')
-out.append('Ten rounds (A–J; J with ten properties) of changes to samber/ro were written by fresh sub-agents that saw only the text of one property and a scratch worktree of the '
+out.append('Eleven rounds (A–K; J and K with ten properties each) of changes to samber/ro were written by fresh sub-agents that saw only the text of one property and a scratch worktree of the '
            'library - nothing of /verif - and were asked for a realistic change (refactor, optimisation, tidied lock scope, parameter corner, second use, two cooperating sites) that '
            'compiles, passes the pinned test suite and breaks the property, with a demonstration that fails with and passes without it. Every change kept here was confirmed by '
            '`tools/confirm_seeds.py` (applies, builds, baseline passes, demonstration fails with / passes without) and is stored as `seeded/<Cxx>-<round>/` (patch.diff, demonstration, '
